@@ -261,6 +261,13 @@ theorem constants_match_source :
   ⟨bufSize_eq, encoding_eq_source, iendChunk_eq_source, layout_consts_eq,
     ⟨adler_consts_eq.1, adler_consts_eq.2.1⟩, maxDim_eq, rowReserve_eq⟩
 
+/-- every declaration of uncompng.go has the (comment-free) text the model was reviewed against -/
+theorem model_reviewed_against_source : srcDigests.length = 14 ∧
+    srcDigests.map (·.1) = ["const ColorTypeGray", "const Depth8", "const eiFirst", "func Encode", "func btou8",
+      "func crc32IEEE", "func flush", "func init", "func pngFileFormatEncoding", "func updateAdler32",
+      "type ColorType", "type Depth", "type Encoder", "var crc32IEEETable"] := by
+  rw [source_text_reviewed]; decide
+
 /-! ## Writer errors and argument validation -/
 
 /-- `writer_error_propagates`: with a writer whose call number `k` fails, `Encode` on valid
